@@ -232,7 +232,8 @@ fn show_cmds(cmds: &[K]) -> String {
 
 /// how an image is made: parent surface `ph × pw` with pixel data `data` (row-major RGBA), optionally
 /// transposed, optionally cropped to rows `r0..r1`, cols `c0..c1` (of the possibly transposed surface);
-/// `via`: 0 = `Image::new(view_owned)`, 1 = `Image::from(owned).crop(..)`, 2 = `Image::new(view.transpose().transpose())`
+/// `via`: 0 = `Image::new(view_owned)`, 1 = `Image::from(owned).crop(..)`, 2 = `Image::new(view.transpose().transpose())`,
+/// 3 = `Image::from_parts` with a hand-made strided shape: every second row and column of the parent
 #[derive(Clone, Debug)]
 struct ImgSpec {
     ph: usize,
@@ -270,6 +271,16 @@ impl ImgSpec {
     }
     /// the pixels the image is meant to have, from the harness' own knowledge: (w, h, RGBA row-major)
     fn intended(&self) -> (usize, usize, Vec<u8>) {
+        if self.via == 3 {
+            let (w, h) = ((self.pw + 1) / 2, (self.ph + 1) / 2);
+            let mut px = Vec::new();
+            for r in 0..h {
+                for c in 0..w {
+                    px.extend_from_slice(&self.parent_px(2 * r, 2 * c));
+                }
+            }
+            return (w, h, px);
+        }
         let (th, tw) = if self.transpose { (self.pw, self.ph) } else { (self.ph, self.pw) };
         let (r0, r1, c0, c1) = self.crop.unwrap_or((0, th, 0, tw));
         let (r1, c1) = (r1.min(th), c1.min(tw));
@@ -287,7 +298,31 @@ impl ImgSpec {
         }
         (c1 - c0, r1 - r0, px)
     }
+    /// start, end, width, height, row stride, column stride the image must have — plain arithmetic on the
+    /// description, no `Shape` method involved
+    fn expected_shape(&self) -> [usize; 6] {
+        if self.via == 3 {
+            return [0, self.ph * self.pw, (self.pw + 1) / 2, (self.ph + 1) / 2, 2 * self.pw, 2];
+        }
+        let mut sh = [0, self.ph * self.pw, self.pw, self.ph, self.pw, 1];
+        if self.transpose {
+            sh.swap(2, 3);
+            sh.swap(4, 5);
+        }
+        match self.crop {
+            Some((r0, r1, c0, c1)) => crop_shape(sh, r0, r1, c0, c1),
+            None => sh,
+        }
+    }
     fn build(&self) -> Image {
+        if self.via == 3 {
+            let px: Vec<RGBA> = (0..self.ph * self.pw).map(|i| {
+                let o = i * 4;
+                RGBA::new(self.data[o], self.data[o + 1], self.data[o + 2], self.data[o + 3])
+            }).collect();
+            let e = self.expected_shape();
+            return Image::from_parts(px.into(), Shape { start: e[0], end: e[1], width: e[2], height: e[3], row_stride: e[4], col_stride: e[5] });
+        }
         let surf: SurfaceOwned<RGBA> = SurfaceOwned::new_with(Size { height: self.ph, width: self.pw }, |p| {
             let [r, g, b, a] = self.parent_px(p.row, p.col);
             RGBA::new(r, g, b, a)
@@ -310,6 +345,16 @@ impl ImgSpec {
     }
 }
 
+/// `Shape::view(r0..r1, c0..c1)` by hand: ranges clamp to the axis, an empty selection gives the all-zero shape
+fn crop_shape(sh: [usize; 6], r0: usize, r1: usize, c0: usize, c1: usize) -> [usize; 6] {
+    let (r1, c1) = (r1.min(sh[3]), c1.min(sh[2]));
+    if r0 < r1 && c0 < c1 {
+        [sh[0] + r0 * sh[4] + c0 * sh[5], sh[0] + (r1 - 1) * sh[4] + c1 * sh[5], c1 - c0, r1 - r0, sh[4], sh[5]]
+    } else {
+        [0; 6]
+    }
+}
+
 #[derive(Clone, Debug)]
 enum EvSpec {
     Draw(usize, usize, usize),
@@ -323,6 +368,8 @@ enum EvSpec {
     Other,
     /// the event, but `out` accepts only this many bytes and then fails
     Failing(Box<EvSpec>, usize),
+    /// the event, but `out` takes only this many bytes per `write` call and interrupts every other call
+    Short(Box<EvSpec>, usize),
     /// not a handler call: NOW take `images[k].crop(r0..r1, c0..c1)` and append it to the list of images
     /// (images derived from an image that the handler may already have seen)
     Derive(usize, usize, usize, usize, usize),
@@ -331,13 +378,21 @@ enum EvSpec {
 impl EvSpec {
     fn base(&self) -> &EvSpec {
         match self {
-            EvSpec::Failing(inner, _) => inner.base(),
+            EvSpec::Failing(inner, _) | EvSpec::Short(inner, _) => inner.base(),
             e => e,
         }
     }
     fn budget(&self) -> Option<usize> {
         match self {
             EvSpec::Failing(_, k) => Some(*k),
+            EvSpec::Short(inner, _) => inner.budget(),
+            _ => None,
+        }
+    }
+    fn short(&self) -> Option<usize> {
+        match self {
+            EvSpec::Short(_, n) => Some(*n),
+            EvSpec::Failing(inner, _) => inner.short(),
             _ => None,
         }
     }
@@ -345,6 +400,7 @@ impl EvSpec {
         match self {
             EvSpec::Failing(inner, k) => json!(["w", k, inner.to_json()]),
             EvSpec::Derive(k, r0, r1, c0, c1) => json!(["c", k, r0, r1, c0, c1]),
+            EvSpec::Short(inner, n) => json!(["s", n, inner.to_json()]),
             EvSpec::Draw(k, r, c) => json!(["d", k, r, c]),
             EvSpec::Erase(k, Some((r, c))) => json!(["e", k, r, c]),
             EvSpec::Erase(k, None) => json!(["e", k]),
@@ -361,6 +417,7 @@ impl EvSpec {
             "e" if a.len() == 4 => EvSpec::Erase(n(1)?, Some((n(2)?, n(3)?))),
             "e" => EvSpec::Erase(n(1)?, None),
             "c" => EvSpec::Derive(n(1)?, n(2)?, n(3)?, n(4)?, n(5)?),
+            "s" => EvSpec::Short(Box::new(EvSpec::from_json(&a[2])?), n(1)?),
             "w" => EvSpec::Failing(Box::new(EvSpec::from_json(&a[2])?), n(1)?),
             "rf" => EvSpec::RespForeign(a[1].as_i64().filter(|j| *j >= 0).map(|j| j as usize), a[2].as_str()?.parse().ok()?),
             "r" => EvSpec::Resp(a[1].as_i64().filter(|j| *j >= 0).map(|j| j as usize), a[2].as_bool()?, a[3].as_bool()?),
@@ -428,10 +485,24 @@ struct Limited {
     buf: Vec<u8>,
     budget: Option<usize>,
     refused: bool,
+    /// a sink that takes at most this many bytes per `write` call and answers every other call with
+    /// `ErrorKind::Interrupted` (legal for `io::Write`; `write_all` must cope, a bare `write` would lose bytes)
+    short: Option<usize>,
+    calls: usize,
 }
 
 impl std::io::Write for Limited {
     fn write(&mut self, data: &[u8]) -> std::io::Result<usize> {
+        let data = match self.short {
+            Some(n) if !data.is_empty() => {
+                self.calls += 1;
+                if self.calls % 2 == 1 {
+                    return Err(std::io::Error::new(std::io::ErrorKind::Interrupted, "try again"));
+                }
+                &data[..n.max(1).min(data.len())]
+            }
+            _ => data,
+        };
         match self.budget {
             None => {
                 self.buf.extend_from_slice(data);
@@ -469,6 +540,35 @@ struct StepOut {
     resp: Option<(u64, Option<u64>, bool)>,
 }
 
+/// The response as the terminal sends it — `ESC _ G i=<id>[,p=<p>] ; <message> ESC \` — read by the crate's
+/// event decoder: the path by which a real application obtains the event it hands to `handle`.
+/// `None` when the decoder does not deliver exactly one event.
+fn decoded_response(id: u64, placement: Option<u64>, error: bool) -> Option<TerminalEvent> {
+    use surf_n_term::decoder::{Decoder, TTYEventDecoder};
+    let mut bytes = format!("\x1b_Gi={id}");
+    if let Some(p) = placement {
+        bytes.push_str(&format!(",p={p}"));
+    }
+    bytes.push_str(if error { ";ENOENT:gone\x1b\\" } else { ";OK\x1b\\" });
+    let mut out = Vec::new();
+    TTYEventDecoder::new().decode_into(std::io::Cursor::new(bytes.into_bytes()), &mut out).ok()?;
+    if out.len() == 1 { out.pop() } else { None }
+}
+
+/// the event for `handle`: written down directly, or (every other time) obtained through the decoder
+fn response_event(k: usize, id: u64, placement: Option<u64>, error: bool) -> Result<TerminalEvent, &'static str> {
+    let direct = TerminalEvent::KittyImage { id, placement, error: if error { Some("ENOENT:gone".to_string()) } else { None } };
+    if k % 2 == 0 {
+        return Ok(direct);
+    }
+    match decoded_response(id, placement, error) {
+        Some(TerminalEvent::KittyImage { id: i, placement: p, error: e }) if i == id && p == placement && e.is_some() == error => {
+            Ok(TerminalEvent::KittyImage { id: i, placement: p, error: e })
+        }
+        _ => Err("the crate's decoder does not deliver the terminal's graphics response (id, placement, OK / error) as sent"),
+    }
+}
+
 /// run a history on a fresh `KittyImageHandler`
 fn run_impl(hist: &History, imgs: &mut Vec<Image>) -> Result<Vec<StepOut>, &'static str> {
     // ---- run the implementation -------------------------------------------------------------
@@ -477,7 +577,7 @@ fn run_impl(hist: &History, imgs: &mut Vec<Image>) -> Result<Vec<StepOut>, &'sta
     // ids of the put of each draw event, as observed (for responses)
     let mut observed: Vec<Option<(u64, u64)>> = Vec::new();
     for ev in hist.evs.iter() {
-        let mut wr = Limited { buf: Vec::new(), budget: ev.budget(), refused: false };
+        let mut wr = Limited { buf: Vec::new(), budget: ev.budget(), refused: false, short: ev.short(), calls: 0 };
         let ev = ev.base();
         let mut resp = None;
         if let EvSpec::Derive(k, r0, r1, c0, c1) = ev {
@@ -500,21 +600,17 @@ fn run_impl(hist: &History, imgs: &mut Vec<Image>) -> Result<Vec<StepOut>, &'sta
                 let (id, pid) = j.and_then(|j| observed.get(j).cloned().flatten()).unwrap_or((777, 5));
                 let placement = if *with_placement { Some(pid) } else { None };
                 resp = Some((id, placement, *err));
-                let event = TerminalEvent::KittyImage {
-                    id,
-                    placement,
-                    error: if *err { Some("ENOENT:gone".to_string()) } else { None },
-                };
+                let event = response_event(steps.len(), id, placement, *err)?;
                 guarded(|| handler.handle(&mut wr, &event).map(Some).map_err(|_| ()))
             }
             EvSpec::RespForeign(j, placement) => {
                 let (id, _) = j.and_then(|j| observed.get(j).cloned().flatten()).unwrap_or((777, 5));
                 resp = Some((id, Some(*placement), true));
-                let event = TerminalEvent::KittyImage { id, placement: Some(*placement), error: Some("ENOENT:gone".to_string()) };
+                let event = response_event(steps.len(), id, Some(*placement), true)?;
                 guarded(|| handler.handle(&mut wr, &event).map(Some).map_err(|_| ()))
             }
             EvSpec::Other => guarded(|| handler.handle(&mut wr, &TerminalEvent::Wake).map(Some).map_err(|_| ())),
-            EvSpec::Failing(..) | EvSpec::Derive(..) => unreachable!(),
+            EvSpec::Failing(..) | EvSpec::Short(..) | EvSpec::Derive(..) => unreachable!(),
         };
         let (handled, err) = match r {
             Ok(Ok(h)) => (h, false),
@@ -588,7 +684,10 @@ impl<'a> Runner<'a> {
         // Shape::view / transpose, as far as the hypotheses of the theorems rest on them (WF of cropped images)
         for spec in hist.imgs.iter() {
             let show = |s: Shape| format!("{} {} {} {} {} {}", s.start, s.end, s.width, s.height, s.row_stride, s.col_stride);
-            let base = Shape::from(Size { height: spec.ph, width: spec.pw });
+            if spec.via == 3 {
+                continue;
+            }
+            let base = Shape { start: 0, end: spec.ph * spec.pw, width: spec.pw, height: spec.ph, row_stride: spec.pw, col_stride: 1 };
             let mut cur = base;
             if spec.transpose {
                 let t = SurfaceOwned::<RGBA>::new(Size { height: spec.ph, width: spec.pw }).transpose().shape();
@@ -615,29 +714,41 @@ impl<'a> Runner<'a> {
         // contents of all images (the given ones and those derived during the history): the harness'
         // intention from the raw pixels, cross-checked with Surface::get
         let mut intended: Vec<(usize, usize, Vec<u8>)> = hist.imgs.iter().map(|s| s.intended()).collect();
+        let mut shapes: Vec<[usize; 6]> = hist.imgs.iter().map(|s| s.expected_shape()).collect();
+        let mut buffers: Vec<usize> = (0..hist.imgs.len()).collect(); // which given image's buffer an image shares
         for ev in hist.evs.iter() {
             if let EvSpec::Derive(k, r0, r1, c0, c1) = ev.base() {
                 let (w, h, px) = intended[*k].clone();
-                let (r1, c1) = ((*r1).min(h), (*c1).min(w));
-                if *r0 < r1 && *c0 < c1 {
+                let (r1c, c1c) = ((*r1).min(h), (*c1).min(w));
+                if *r0 < r1c && *c0 < c1c {
                     let mut out = Vec::new();
-                    for r in *r0..r1 {
-                        out.extend_from_slice(&px[(r * w + *c0) * 4..(r * w + c1) * 4]);
+                    for r in *r0..r1c {
+                        out.extend_from_slice(&px[(r * w + *c0) * 4..(r * w + c1c) * 4]);
                     }
-                    intended.push((c1 - *c0, r1 - *r0, out));
+                    intended.push((c1c - *c0, r1c - *r0, out));
                 } else {
                     intended.push((0, 0, vec![]));
                 }
+                shapes.push(crop_shape(shapes[*k], *r0, *r1, *c0, *c1));
+                buffers.push(buffers[*k]);
             }
         }
-        let mut contents = Vec::new();
-        for (want, img) in intended.iter().zip(imgs.iter()) {
+        // The expectation of the oracle is `intended` — cut from the raw generated pixels. What the crate's own
+        // accessors say about the image (Surface::get / width / height, Image::shape, Image::data) is only
+        // cross-checked against it: a disagreement is reported, it does not move the expectation.
+        let contents = intended;
+        for (i, img) in imgs.iter().enumerate() {
             let by_get = content_of(img);
-            if by_get != *want {
-                // Shape::view / transpose territory (C07); judge C11 against what the image itself says it holds
-                self.out.hist("note:view-differs-from-intended-window");
+            let sh = img.shape();
+            let got_shape = [sh.start, sh.end, sh.width, sh.height, sh.row_stride, sh.col_stride];
+            let raw: Vec<u8> = img.data().iter().flat_map(|c| c.to_rgba()).collect();
+            if by_get != contents[i] || got_shape != shapes[i] || raw != hist.imgs[buffers[i]].data {
+                self.out.fail("the image handed to the handler is not the window of the raw pixels that was asked for (Surface::get / Image::shape / Image::data disagree with the harness' arithmetic)",
+                    json!({"history": hist.to_json(), "image": i}),
+                    json!({"shape": shapes[i], "w": contents[i].0, "h": contents[i].1}),
+                    json!({"shape": got_shape, "w": by_get.0, "h": by_get.1, "same_pixels": by_get.2 == contents[i].2, "same_buffer": raw == hist.imgs[buffers[i]].data}));
+                return false;
             }
-            contents.push(by_get);
         }
         // hashes are read AFTER the history: what the handler saw is what a cache inside the image would hold
         let hashes: Vec<u64> = imgs.iter().map(|i| Surface::hash(i)).collect();
@@ -659,7 +770,7 @@ impl<'a> Runner<'a> {
             }
             let ev = ev.base();
             match ev {
-                EvSpec::Failing(..) => unreachable!(),
+                EvSpec::Failing(..) | EvSpec::Short(..) => unreachable!(),
                 EvSpec::Derive(..) => {}
                 EvSpec::Draw(k, r, c) => req.push_str(&format!(" ev d {k} {r} {c}")),
                 EvSpec::Erase(k, Some((r, c))) => req.push_str(&format!(" ev e {k} {r} {c}")),
@@ -944,7 +1055,7 @@ impl<'a> Runner<'a> {
                     }
                 }
                 EvSpec::Other | EvSpec::Derive(..) => {}
-                EvSpec::Failing(..) => unreachable!(),
+                EvSpec::Failing(..) | EvSpec::Short(..) => unreachable!(),
             }
         }
 
@@ -954,7 +1065,7 @@ impl<'a> Runner<'a> {
             for (ev, st) in hist.evs.iter().zip(steps.iter()) {
                 let b = hex(&st.bytes);
                 match ev {
-                    EvSpec::Failing(..) | EvSpec::Derive(..) => {}
+                    EvSpec::Failing(..) | EvSpec::Short(..) | EvSpec::Derive(..) => {}
                     EvSpec::Draw(k, r, c) => {
                         let ct = &contents[*k];
                         req.push_str(&format!(" D {} {} {} {r} {c} {b}", ct.0, ct.1, hex(&ct.2)));
@@ -1096,7 +1207,10 @@ fn gen_image(rng: &mut Rng, max: usize) -> ImgSpec {
     } else {
         None
     };
-    ImgSpec { ph, pw, data, transpose, crop, via: rng.below(2) as u8 }
+    if !transpose && crop.is_none() && rng.chance(1, 5) {
+        return ImgSpec { ph, pw, data, transpose, crop, via: 3 }; // hand-made strided shape through from_parts
+    }
+    ImgSpec { ph, pw, data, transpose, crop, via: rng.below(3) as u8 }
 }
 
 /// another image with exactly the pixels of `spec` but a different memory layout / construction
@@ -1107,7 +1221,19 @@ fn twin_of(rng: &mut Rng, spec: &ImgSpec) -> ImgSpec {
         t.via = (t.via + 1) % 3;
         return t;
     }
-    match rng.below(4) {
+    match rng.below(5) {
+        // every second row and column of a parent almost twice the size (strides 2·pw and 2, via from_parts)
+        4 => {
+            let (ph, pw) = (2 * h - 1, 2 * w - 1);
+            let mut data = gen_pixels(rng, ph * pw);
+            for r in 0..h {
+                for col in 0..w {
+                    let o = (2 * r * pw + 2 * col) * 4;
+                    data[o..o + 4].copy_from_slice(&px[(r * w + col) * 4..(r * w + col) * 4 + 4]);
+                }
+            }
+            ImgSpec { ph, pw, data, transpose: false, crop: None, via: 3 }
+        }
         // an owned copy of exactly these pixels
         0 => ImgSpec { ph: h, pw: w, data: px, transpose: false, crop: None, via: rng.below(2) as u8 },
         // a window of a larger parent
@@ -1639,6 +1765,15 @@ fn corpus() -> Vec<History> {
         dv(0, 0, 4, 0, 5), d(4, 5, 5), e(2, 2, 2), e(0, 1, 1), e(3, 4, 4), EvSpec::Erase(1, None)] });
     v.push(History { quiet: false, imgs: vec![gradient(3, 3)], evs: vec![
         e(0, 1, 1), dv(0, 0, 1, 0, 3), d(1, 1, 1), d(0, 1, 1), e(1, 1, 1), EvSpec::Resp(Some(2), true, true)] });
+    // a strided image made by hand (from_parts: every second row / column of a 5x7 parent), its crop, and an owned
+    // copy of the same pixels; all through a sink that takes 3 bytes per call and interrupts every other call
+    let strided = ImgSpec { via: 3, ..gradient(5, 7) };
+    let (sw, sh_, spx) = strided.intended();
+    let copy = ImgSpec { ph: sh_, pw: sw, data: spx, transpose: false, crop: None, via: 0 };
+    let short = |ev: EvSpec| EvSpec::Short(Box::new(ev), 3);
+    v.push(History { quiet: false, imgs: vec![strided, copy], evs: vec![
+        short(d(0, 2, 5)), short(d(1, 5, 2)), dv(0, 1, 3, 1, 4), short(d(2, 1, 1)), short(EvSpec::Resp(Some(0), true, true)),
+        short(EvSpec::Resp(Some(3), true, true)), short(e(1, 2, 5)), short(EvSpec::Erase(2, None))] });
     // 320 distinct images on one handler, then the first ones again
     v.push(long_history(320, 1));
     // twenty images, all drawn, then all drawn again: nothing may be transmitted a second time
@@ -1776,6 +1911,13 @@ fn main() {
                 gen_history(&mut rng, max)
             };
             let h = if i % 12 == 5 { with_failures(&mut rng, h) } else { h };
+            // sinks that take a few bytes per call and interrupt every other call: same bytes must arrive
+            let h = if i % 9 == 4 {
+                let n = 1 + rng.below(9) as usize;
+                History { evs: h.evs.into_iter().map(|e| if matches!(e, EvSpec::Derive(..)) { e } else { EvSpec::Short(Box::new(e), n) }).collect(), ..h }
+            } else {
+                h
+            };
             run.history(&h, true);
             if i % 211 == 0 {
                 let s = json!({"images": h.imgs.iter().map(|i| format!("{}x{}{}{}", i.ph, i.pw, if i.transpose { " transposed" } else { "" }, i.crop.map(|c| format!(" crop {:?}", c)).unwrap_or_default())).collect::<Vec<_>>(),
